@@ -9,6 +9,6 @@ model: coq
 	mkdir -p $(BUILD)/model
 	cd $(BUILD)/model && coqc -Q ../../$(COQDIR) Cntgs ../../$(COQDIR)/Extract.v >/dev/null
 	cp ocaml/*.ml $(BUILD)/model/
-	cd $(BUILD)/model && ocamlfind ocamlopt -w -a model.mli model.ml driver.ml -o model_run
+	cd $(BUILD)/model && ocamlfind ocamlopt -package unix -linkpkg -w -a model.mli model.ml driver.ml -o model_run
 clean:
 	rm -rf $(BUILD); cd $(COQDIR) && rm -f *.vo *.vos *.vok *.glob .*.aux Makefile.coq Makefile.coq.conf Makefile Makefile.conf
